@@ -13,3 +13,5 @@ pub mod process_request;
 pub mod replication_ops;
 pub mod security;
 pub mod storage;
+#[cfg(nun_verif)]
+pub mod verif;
